@@ -615,8 +615,50 @@ Definition check_serial (sel : N) (cs : list int * (list (list int) * list (list
   | _ => mkV 1 0
   end.
 
+(* a case with configuration [98]: a claim is processed between the two halves of the suspicion timeout callback
+   (timer_fire: the check, then deadNode at the incarnation that was checked).  ops: [[k]] with k = 0 the
+   member's refutation (alive, incarnation 2), 1 a stale alive, 2 somebody else's death claim, 3 a newer suspicion;
+   obs: [[interposed; state; incarnation; listed; leave events]] *)
+Definition split_cfg : cfg :=
+  mkCfg 0 100 [1;5;2;0;0;0]%N 0 30000000000 2 4000000000 6 [24000000000;11381000000;4000000000] 8 true false [] true.
+Definition split_claim (k : N) : op :=
+  if N.eqb k 0 then OAlive 2 1 101 0 [1;5;2;0;0;0]%N false
+  else if N.eqb k 1 then OAlive 1 1 101 0 [1;5;2;0;0;0]%N false
+  else if N.eqb k 2 then ODead 1 1 7
+  else OSuspect 2 1 7.
+Definition check_split (sel : N) (cs : list int * (list (list int) * list (list int))) : verdict :=
+  match fst (snd cs), snd (snd cs) with
+  | [[k]], [[fired; state; inc; listed; nleave]] =>
+      if negb (N.eqb sel 0 || N.eqb sel 16) then vok
+      else if negb (bi fired) then mkV 66 0
+      else
+        let c := split_cfg in
+        let s1 := boot c 0 in
+        let s2 := fst (step c s1 (OAlive 1 1 101 0 [1;5;2;0;0;0]%N false)) in
+        let s3 := fst (step c s2 (OSuspect 1 1 0)) in
+        match alookup 1%N (recs s3) with
+        | Some r3 =>
+            if negb (st_eqb (rst r3) Suspect) then mkV 66 1
+            else
+              let '(s4, e4) := step c s3 (split_claim (ni k)) in
+              let '(s5, e5) := do_dead c s4 (rinc r3) 1 (self c) in
+              let leaves := length (filter (fun e => match e with EvLeave n _ _ => N.eqb n 1 | _ => false end) (e4 ++ e5)) in
+              (* C06: "... unless it first accepts a refutation (the peer stays)" *)
+              if N.eqb (ni k) 0 && negb (st_eqb (st_of state) Alive && bi listed && Uint63.eqb nleave 0) then mkV 163 0
+              else match alookup 1%N (recs s5) with
+                   | Some r5 =>
+                       if st_eqb (rst r5) (st_of state) && N.eqb (rinc r5) (ni inc)
+                          && Bool.eqb (bi listed) (negb (dead_or_left (rst r5))) && Nat.eqb leaves (nati nleave)
+                       then vok else mkV 66 2
+                   | None => mkV 66 3
+                   end
+        | None => mkV 66 1
+        end
+  | _, _ => mkV 1 0
+  end.
+
 Definition check_case (sel : N) (cs : list int * (list (list int) * list (list int))) : verdict :=
-  match fst cs with [k] => check_serial sel cs | _ =>
+  match fst cs with [k] => if Uint63.eqb k 98 then check_split sel cs else check_serial sel cs | _ =>
   match dec_cfg (fst cs), dec_list dec_op (fst (snd cs)), dec_list dec_obs (snd (snd cs)) with
   | Some (c, bm), Some ops, Some (ob0 :: obs) =>
       (* boot *)
